@@ -38,8 +38,10 @@ class Scenario:
     extra:   list of BV constraints that make a model realisable/replayable (sizes small enough etc.)
     """
 
-    def __init__(self, vars, build, expect, extra=()):
-        self.vars, self.build, self.expect, self.extra = vars, build, expect, list(extra)
+    def __init__(self, vars, build, expect, extra=(), prefer=()):
+        self.vars, self.build, self.expect = vars, build, expect
+        self.extra = list(extra)    # hard realisability constraints
+        self.prefer = list(prefer)  # soft: keep the image small enough to replay quickly
 
 
 class TaskResult(dict):
@@ -69,6 +71,7 @@ class Ctx:
     def _reset(self):
         self.E.apps = []
         self.E.linked = set()
+        self.E.views = {}
         self.E.monitor = []
         self.E.pins = dict(self.cfg.get("pins", {}))
         self.scenario = None
@@ -100,6 +103,13 @@ class Ctx:
             extra += replay.no_partial_overlap(self.E.apps)
         except Exception as ex:  # noqa: BLE001
             self.res["notes"].append(f"overlap constraints skipped: {ex}")
+        if sc and sc.prefer:
+            try:
+                m = self.E.bv_solve(*cons, *extra, *sc.prefer)
+            except Inconclusive:
+                m = None
+            if m is not None:
+                return m
         return self.E.bv_solve(*cons, *extra)
 
     def _describe(self, model, why):
@@ -273,6 +283,8 @@ class Ctx:
                                                    vars=desc.get("vars")))
             else:
                 self.res["witness_failures"].append(f"in-process {detail} / subprocess {verdict2} {detail2}")
+        elif "replay too large" in detail:
+            self.res["notes"].append("witness skipped: image too large to replay")
         else:
             self.res["witness_failures"].append(detail)
 
@@ -306,7 +318,8 @@ class Ctx:
         st = self.E.stats
         self.res.update(paths=st["paths"], feasible_paths=st["feasible_paths"], decisions=st["decisions"],
                         solver_s=round(st["int_s"] + st["bv_s"], 2), int_checks=st["int_checks"],
-                        bv_checks=st["bv_checks"], wall_s=round(time.time() - self.t0, 2))
+                        bv_checks=st["bv_checks"], wall_s=round(time.time() - self.t0, 2), int_s=round(st["int_s"], 2),
+                        bv_s=round(st["bv_s"], 2))
         if cov:
             self.res["funcs"] = sorted(cov.funcs)
             self.res["lines"] = sorted(cov.lines)
@@ -331,3 +344,103 @@ def byte_obligation(res, j, explen_bv, spec_val):
     res = SymBytes.lift(res)
     impl_val, total = res.byte_term(j)
     return z3.Or(total != explen_bv, z3.And(j >= bvval(0), j < explen_bv, impl_val != spec_val))
+
+
+# ---- helpers shared by the read-path harnesses ------------------------------------------------------------
+
+def sample_positions(rng, total, unit, model_j=None, extra_units=()):
+    js = {0, total - 1}
+    if model_j is not None and 0 <= model_j < total:
+        js.add(model_j)
+    for u in (unit,) + tuple(extra_units):
+        k = u
+        n = 0
+        while k < total and n < 24:
+            js.update({k - 1, k})
+            k += u
+            n += 1
+    for _ in range(24):
+        js.add(rng.randrange(total))
+    return sorted(j for j in js if 0 <= j < total)
+
+
+def generic_in_process(desc):
+    """Run a replay description on the real code inside this process (fast path for witnesses)."""
+    from symx import replay_entries, replay_runner  # noqa: F401
+
+    fs = {k: replay_runner.mkfile(v, name=v.get("name")) for k, v in desc["files"].items()}
+    op = {k: replay_runner.mkfile(v) for k, v in desc.get("opaque", {}).items()}
+    exp = desc["expect"]
+    try:
+        obj = replay_runner.OPENERS[desc["entry"]](fs, op, desc["params"])
+        res = replay_runner.do_call(obj, desc["call"])
+    except MemoryError as ex:
+        return "error", f"replay too large: {ex}"
+    except Exception as ex:  # noqa: BLE001
+        if "raises" in exp and (exp["raises"] == "*" or type(ex).__name__ in exp["raises"].split("|")):
+            return "ok", "raised as expected"
+        return "violation", f"raised {type(ex).__name__}: {ex}"
+    if "raises" in exp:
+        return "violation", "returned normally"
+    if "len" in exp and len(res) != exp["len"]:
+        return "violation", f"length {len(res)} != {exp['len']}"
+    for j, v in exp.get("bytes", []):
+        if j >= len(res) or res[j] != v:
+            return "violation", f"byte {j}: {res[j] if j < len(res) else None} != {v}"
+    return "ok", "match"
+
+
+def files_desc(model, apps, seed, names=("img",), size=1 << 70, labels=None):
+    pat = replay.patches_from_apps(model, apps)
+    out = {}
+    for i, n in enumerate(names):
+        out[n] = dict(size=size, seed=(seed & 0xFFFF) + 101 * i,
+                      patches=[[a, b.hex()] for a, b in sorted(pat.get(n, {}).items())])
+        if labels and n in labels:
+            out[n]["name"] = labels[n]
+    return out
+
+
+def read_scenario(ctx, E, vars_, *, entry, params, call, total, g0, spec_at, unit, rng, names=("img",), opaque=(),
+                  prefer=(), j=None, extra_units=(), post_files=None):
+    """Scenario for a read request.
+    params/call/total/g0: callables(model) -> JSON value / int; spec_at(model, g:int, env) -> z3 BV8 term with concrete g."""
+    seed = ctx.seed
+
+    def build(model):
+        fd = files_desc(model, E.apps, seed, names)
+        if post_files:
+            post_files(model, fd)
+        d = dict(entry=entry, params=params(model), files=fd, call=call(model))
+        if opaque:
+            d["opaque"] = {n: dict(size=1 << 70, seed=(seed & 0xFFFF) + 977 + 13 * i) for i, n in enumerate(opaque)}
+        return d
+
+    def expect(model, desc):
+        from symx import replay_runner
+
+        fs = {k: replay_runner.mkfile(v) for k, v in desc["files"].items()}
+        op = {k: replay_runner.mkfile(v) for k, v in desc.get("opaque", {}).items()}
+        env = replay.ConcreteEnv({}, fs, op, inflate=desc.get("_inflate_fns", {}))
+        tot = total(model)
+        mj = None
+        if j is not None:
+            try:
+                mj = replay.model_int(model, j)
+            except Exception:  # noqa: BLE001
+                mj = None
+        base = g0(model)
+        out = []
+        for jj in sample_positions(rng, tot, unit, mj, extra_units) if tot > 0 else []:
+            out.append([jj, replay.ceval(spec_at(model, base + jj, env), env)])
+        desc.pop("_inflate_fns", None)
+        return dict(len=tot, bytes=out)
+
+    return Scenario(vars_, build, expect, prefer=list(prefer))
+
+
+def mi(model, x):
+    """model value of an int-like (SymInt / int)"""
+    if isinstance(x, int):
+        return x
+    return replay.model_int(model, core.bv(x))
